@@ -214,7 +214,10 @@ impl<const KK: usize> DynOwning for OwningAddr<Probe<KK>> {
         Box::pin(async move { f.await.map(joinval) })
     }
     fn consume(self: Box<Self>) -> LocalBoxFuture<'static, HResult<JoinVal>> {
-        Box::pin(async move { OwningAddr::consume(*self).await.map(joinval) })
+        // the library call is made here and now (not inside the wrapper's first poll): whether `consume()` is lazy is
+        // the library's business, and part of what is observed
+        let f = OwningAddr::consume(*self);
+        Box::pin(async move { f.await.map(joinval) })
     }
     fn consume_sync(self: Box<Self>) -> HResult<JoinFut> {
         let f = OwningAddr::consume_sync(*self)?;
